@@ -230,7 +230,7 @@ theorem ingest_percentage_prefix {o : Oracle} {cfg : Cfg} (hl : cfg.looped = fal
         (stopped ≠ [] → out.map (·.2) = all.take (totalBulksOf (numberOfBulks corpora s e n cfg.bulkSize) cfg.pct).toNat) ∧
         (∀ c ∈ out.map (·.1), c ∈ calls) := by
   have hne : clients ≠ [] := by intro h; rw [h] at hmin; simp [listMin] at hmin
-  obtain ⟨p0, hp0, hparts, hcb, hcnt, htp⟩ := partitionAll_spec n clients (PState.init : PState α) (Or.inl rfl)
+  obtain ⟨p0, hp0, hparts, hcb, hcnt, htb, htp⟩ := partitionAll_spec n clients (PState.init : PState α) (Or.inl rfl)
   refine ⟨p0, hp0, ?_⟩
   intro out stopped p' hrun
   have hnb : 0 ≤ numberOfBulks corpora s e n cfg.bulkSize := by
@@ -238,7 +238,7 @@ theorem ingest_percentage_prefix {o : Oracle} {cfg : Cfg} (hl : cfg.looped = fal
   have hT := totalBulksOf_nonneg hnb hpct
   set T := totalBulksOf (numberOfBulks corpora s e n cfg.bulkSize) cfg.pct with hTdef
   have hinv0 : PInv n s e all ⟨0, 0, 0, 0⟩ T p0 [] [] := by
-    refine ⟨htp hne, ?_, ?_, Or.inl ⟨hcb, rfl, fun _ => ⟨hcnt, rfl⟩⟩⟩
+    refine ⟨htp hne, ?_, ?_, Or.inl ⟨hcb, rfl, fun _ => ⟨hcnt, rfl, by rw [htb]; simp [PState.init]⟩⟩⟩
     · rw [hparts]; simpa [PState.init] using hmin
     · rw [hparts]; simpa [PState.init] using hmax
   obtain ⟨⟨_, _, _, hfin⟩, hcl⟩ := runCalls_spec hl hall hT calls p0 [] [] out stopped p' hinv0 hrun
@@ -249,12 +249,60 @@ theorem ingest_percentage_prefix {o : Oracle} {cfg : Cfg} (hl : cfg.looped = fal
     · exact ⟨p'.currentBulk, by omega, hE⟩
   · intro hst
     rcases hfin with ⟨_, hE, hpos⟩ | ⟨_, _, _, hE, hle, hstop⟩
-    · have : ¬ 0 < T := fun h => hst (hpos h).2
+    · have : ¬ 0 < T := fun h => hst (hpos h).2.1
       have : T.toNat = 0 := by omega
       rw [hE, this]; rfl
     · rcases hstop hst with h | h
       · rw [hE, List.take_of_length_le h, List.take_of_length_le (by omega)]
       · rw [hE]; congr 1; omega
+
+/-! ### a group without any bulk (more clients than documents)
+
+`ScheduleHandle.__call__` evaluates `params.percent_completed` before every `params()`.  Before fix b9aff71 this was
+`current_bulk / total_bulks`: once the first co-located client had initialised a group whose share of the corpus is
+empty, `total_bulks` was 0 and the next co-located client failed with ZeroDivisionError, aborting the race on valid
+input (`group_fails_pinned`, regression case corpus/C03/files-empty-share-group-two-clients.json).  Since the fix
+`percent_completed` of such a group is 1.0 and the full statement holds. -/
+
+/-- **group_never_fails**: the co-located clients of a group run to the end for every call order — also when
+    the group's share of the corpus is empty (`total_bulks = 0`: every client just gets StopIteration). -/
+theorem group_never_fails {o : Oracle} {cfg : Cfg} (hl : cfg.looped = false) (hpct : 0 < cfg.pct) (hbulk : 0 < cfg.bulkSize)
+    {n s e : Nat} (hs : s ≤ e) {corpora : List (Corpus α)}
+    {clients : List Nat} (hmin : listMin clients = some s) (hmax : listMax clients = some e)
+    {all : List (Bulk α)} {c1 : Cnt} (hall : workerBulks o cfg corpora n s e ⟨0, 0, 0, 0⟩ = .ok (all, c1))
+    (calls : List Nat) :
+    ∃ p0, partitionAll n clients (PState.init : PState α) = .ok p0 ∧ ∃ r, runCalls o cfg corpora calls p0 [] = .ok r := by
+  have hne : clients ≠ [] := by intro h; rw [h] at hmin; simp [listMin] at hmin
+  obtain ⟨p0, hp0, hparts, hcb, hcnt, htb, htp⟩ := partitionAll_spec n clients (PState.init : PState α) (Or.inl rfl)
+  refine ⟨p0, hp0, ?_⟩
+  have hmin' : listMin p0.partitions = some s := by rw [hparts]; simpa [PState.init] using hmin
+  have hmax' : listMax p0.partitions = some e := by rw [hparts]; simpa [PState.init] using hmax
+  have hnb : 0 ≤ numberOfBulks corpora s e n cfg.bulkSize := by
+    rw [numberOfBulks_eq hs]; exact Int.natCast_nonneg _
+  have hT0 := totalBulksOf_nonneg hnb (le_of_lt hpct)
+  by_cases hT : 0 < totalBulksOf (numberOfBulks corpora s e n cfg.bulkSize) cfg.pct
+  · apply runCalls_ok hl hall hT calls p0 [] []
+    exact ⟨htp hne, hmin', hmax', Or.inl ⟨hcb, rfl, fun _ => ⟨hcnt, rfl, by rw [htb]; simp [PState.init]⟩⟩⟩
+  · have hTz : totalBulksOf (numberOfBulks corpora s e n cfg.bulkSize) cfg.pct = 0 := by omega
+    have hz : numberOfBulks corpora s e n cfg.bulkSize = 0 := by
+      have := hTz
+      rw [numberOfBulks_eq hs] at this ⊢
+      have := totalBulksOf_eq_zero hpct this
+      exact_mod_cast this
+    exact runCalls_ok_zero hl (corpora_ne_of_workerBulks_ok hall) (no_share_of_numberOfBulks_zero hs hbulk hz) hTz
+      calls p0 [] (htp hne) hmin' hmax' hcb
+
+/-- historical (code before b9aff71, `runCallsPinned`): one document, four clients, clients 0 and 1 on one
+    worker (their share is empty): client 0 got StopIteration, client 1 got ZeroDivisionError — while the
+    repaired code lets both stop -/
+theorem group_fails_pinned :
+    (match partitionAll 4 [0, 1] (PState.init : PState Nat) with
+      | .ok p0 => ((runCallsPinned ⟨fun _ => 0, fun _ _ => 0, fun _ => 0, fun _ l => l⟩
+            ⟨1, 1, .none, none, false, none, 100, false⟩ [[⟨[0], 1, false, false⟩]] [0, 1] p0 []).toBool,
+          (runCalls ⟨fun _ => 0, fun _ _ => 0, fun _ => 0, fun _ l => l⟩
+            ⟨1, 1, .none, none, false, none, 100, false⟩ [[⟨[0], 1, false, false⟩]] [0, 1] p0 []).toBool)
+      | .error _ => (true, false)) = (false, true) := by
+  decide +kernel
 
 /-- `total_bulks` versus the exact ceiling of the property text: full ingestion is exact
     (`ceil(all·100.0/100) = all` in doubles); for any percentage the float value is within one of
@@ -328,6 +376,68 @@ theorem race_cover {cfg : Cfg} (hl : cfg.looped = false) (hpct : cfg.pct = 100)
   obtain ⟨⟨ws, hws, hlines⟩, _⟩ := hq (out r) (stopped r) (p' r) hrun hst
   rw [hlines]
   exact List.Perm.flatten hws
+
+/-! ## the caller: `schedule_for` on the allocator's `TaskAllocation`s (tasks inside `parallel` elements) -/
+
+/-- what the allocator (model `Alloc`, C02) hands to `schedule_for` for logical client `c` of a schedule
+    element: the task `s`, `client_index_in_task < s.clients`, and as `total_clients` the client count of the
+    *enclosing element* — which differs from `s.clients` whenever the task shares a `parallel` with others. -/
+theorem alloc_entry_total_is_element (e : Alloc.Element) (c : Nat) (hc : c < e.total) :
+    ∃ s i, Alloc.taskEntry e c = Alloc.Entry.task s i c e.clients ∧ s ∈ e.tasks ∧ i < s.clients :=
+  taskEntry_spec e c hc
+
+/-- parallel[bulk(3 clients), other(1 client)]: `total_clients` = 4, the bulk task has 3 clients -/
+example : Alloc.taskEntry ⟨none, [⟨0, 3, false, false⟩, ⟨1, 1, false, false⟩]⟩ 2 = .task ⟨0, 3, false, false⟩ 2 2 4 := by
+  decide
+
+/-- **schedule_for_uses_task_clients**: for the co-located task allocations of a task with `c` clients —
+    whatever `total_clients` they carry — `schedule_for` registers the partitions
+    `(client_index_in_task, c)` on the shared source. -/
+theorem schedule_for_uses_task_clients (c : Nat) (es : List Alloc.Entry) (p : PState α) (h : ∀ en ∈ es, IsAllocOf c en) :
+    partitionEntries es p = partitionAll c (es.filterMap entryIdx) p :=
+  partitionEntries_eq c es p h
+
+/-- **race_cover_schedule**: a bulk task with `c` clients anywhere in a schedule (alone, or inside a
+    `parallel` element next to other tasks, any `total_clients`): if the groups of co-located task
+    allocations (one shared source per group, registered through `schedule_for`) have client indices that
+    cut `0..c-1` into consecutive ranges, then for every oracle and every order of `params()` calls per
+    group all groups together deliver every line of every corpus file exactly once. -/
+theorem race_cover_schedule {cfg : Cfg} (hl : cfg.looped = false) (hpct : cfg.pct = 100)
+    (hbulk : 0 < cfg.bulkSize) (hbatch : 0 < cfg.batchSize) {c : Nat} (hc : 1 ≤ c)
+    {corpora : List (Corpus α)} (hwf : ∀ d ∈ corpora.flatten, d.WF) {ranges : List (Nat × Nat)} (hcut : Cut 0 c ranges)
+    (O : Nat × Nat → Oracle) (entries : Nat × Nat → List Alloc.Entry) (calls stopped : Nat × Nat → List Nat)
+    (p0 p' : Nat × Nat → PState α) (out : Nat × Nat → List (Nat × Bulk α)) (all : Nat × Nat → List (Bulk α))
+    (c1 : Nat × Nat → Cnt)
+    (hw : ∀ r ∈ ranges, OracleOK (O r) ∧ (∀ en ∈ entries r, IsAllocOf c en) ∧
+      listMin ((entries r).filterMap entryIdx) = some r.1 ∧ listMax ((entries r).filterMap entryIdx) = some r.2 ∧
+      workerBulks (O r) cfg corpora c r.1 r.2 ⟨0, 0, 0, 0⟩ = .ok (all r, c1 r) ∧ (all r).length * 100 < 2^53 ∧
+      partitionEntries (entries r) (PState.init : PState α) = .ok (p0 r) ∧
+      runCalls (O r) cfg corpora (calls r) (p0 r) [] = .ok (out r, stopped r, p' r) ∧ stopped r ≠ []) :
+    (ranges.flatMap fun r => ((out r).map (·.2)).flatMap fun b => srcLines b.body).Perm
+      (corpora.flatten.flatMap (·.lines)) := by
+  apply race_cover hl hpct hbulk hbatch hc hwf hcut O (fun r => (entries r).filterMap entryIdx) calls stopped p0 p' out all c1
+  intro r hr
+  obtain ⟨h1, h2, h3, h4, h5, h6, h7, h8, h9⟩ := hw r hr
+  rw [partitionEntries_eq c _ _ h2] at h7
+  exact ⟨h1, h3, h4, h5, h6, h7, h8, h9⟩
+
+/-- `number_of_bulks` counts the bulks of the *group* (one contiguous slice per file), not the sum of
+    per-client ceilings: 40 documents, 8 clients, bulk size 4, clients 0..3 on one worker → 5 bulks, while the
+    clients one by one would need 2 + 2 + 2 + 2 = 8. -/
+theorem number_of_bulks_is_per_group :
+    numberOfBulks [[(⟨[], 40, false, false⟩ : DocSet Nat)]] 0 3 8 4 = 5 ∧
+      ((List.range 4).map fun i => numberOfBulks [[(⟨[], 40, false, false⟩ : DocSet Nat)]] i i 8 4).sum = 8 := by
+  decide +kernel
+
+/-- for an integral ingest percentage `p` (and `all·p < 2^53`) `total_bulks` is the exact ceiling
+    `⌈all·p/100⌉` of the property text: multiplying first is exact, the one division is correctly rounded and
+    cannot cross an integer. -/
+theorem total_bulks_integral_percentage {all p : Nat} (hp : 1 ≤ p) (h : all * p < 2^53) :
+    totalBulksOf (all : Int) (p : Rat) = (((all * p : Nat) : Rat) / 100).ceil :=
+  totalBulksOf_integral hp h
+
+/-- 100 bulks at 7 %: exactly 7 (hoisting `p/100` would give 8) -/
+example : totalBulksOf 100 7 = 7 ∧ Dbl.fceil (Dbl.fmul (Dbl.ofInt 100) (Dbl.fdiv 7 100)) = 8 := by decide +kernel
 
 /-! ## skip_with_table_eq_linear -/
 
